@@ -8,6 +8,7 @@ import (
 	"context"
 	"fmt"
 	"io"
+	"time"
 
 	enginetypes "github.com/projecteru2/core/engine/types"
 	"github.com/projecteru2/core/strategy"
@@ -75,9 +76,15 @@ func VerifRunAndWait(arg string) {
 	}
 	last := map[string]*types.AttachWorkloadMessage{}
 	n := 0
+	if !vIsSymbolic() {
+		time.Sleep(20 * time.Millisecond) // natively: the reader is not waiting yet when the first messages are sent
+	}
 	for m := range ch { // the output stream always closes (a block here is a hang violation)
 		n++
 		last[m.WorkloadID] = m
+		if !vIsSymbolic() {
+			time.Sleep(2 * time.Millisecond) // natively: a reader that is not always waiting (the symbolic schedules include that)
+		}
 	}
 	vObserve("messages", n)
 	vObserve("fault_site", w.site)
